@@ -357,6 +357,9 @@ pub struct StreamStat {
     pub in_flight_recv_data: u32,
     pub has_pending_send_frames: bool,
     pub has_pending_recv_events: bool,
+    /// still reachable through the id map (closed streams are unlinked but kept
+    /// in the slab while handles reference them)
+    pub is_linked: bool,
 }
 
 #[derive(Debug, Clone, Default, PartialEq, Eq)]
